@@ -26,10 +26,12 @@ def universe():
     t_sp2 = data.Term(name=t_sp.name, label="Species (alt label)", definition=t_sp.definition)
     # same label as call_type, different name
     t_ct2 = data.Term(name="custom:call_type", label=t_ct.label, definition="other")
+    # values that are different strings but look alike: precomposed vs combining accent (NFC / NFD), other case
+    A, A_nfd, a_low = "Cr\u00f3talo", "Cro\u0301talo", "cr\u00f3talo"
     U = [
-        data.Tag(term=t_sp, value="a"), data.Tag(term=t_sp, value="b"), data.Tag(term=t_ct, value="a"),
-        data.Tag(term=t_sp2, value="a"), data.Tag(term=t_ct2, value="a"),
-        data.Tag(term=t_sp, value="zzz"), data.Tag(term=data.term_from_key("other"), value="a"),
+        data.Tag(term=t_sp, value=A), data.Tag(term=t_sp, value=A_nfd), data.Tag(term=t_ct, value=A),
+        data.Tag(term=t_sp2, value=A), data.Tag(term=t_ct2, value=A),
+        data.Tag(term=t_sp, value=a_low), data.Tag(term=data.term_from_key("other"), value=A),
     ]
     return U
 
